@@ -19,7 +19,7 @@ CHECKS = {
    note="Link-level channel_ready/mailbox handling is covered by C08; bounded scripts; FIFO wires.", ref="§4 C03"),
  "C06": dict(cat="exploration", engine="grid+chanmc",
    technique="exhaustive enumeration of all store prefixes k<=2^12 (2^16 thorough) x all single-bit corruptions against a full-list reference; release rule monitored on every revoke_and_ack of an exhaustively explored two-peer schedule space with reconnects",
-   text="Every prefix length up to the bound, every single-bit corruption for small k and every serialisation point is enumerated on the real RevocationStore/Producer and compared with an independent BOLT-3 reference; the release rule (secret of exactly the next height, next point, newer commitment already durable) is checked on every revocation the API returns in every explored state.",
+   text="Every prefix length up to the bound, every single-bit corruption for small k and every serialisation point is enumerated on the real RevocationStore/Producer and compared with an independent BOLT-3 reference; the release rule (secret of exactly the next height, next point, newer commitment already durable) is checked on every revocation the API returns in every explored state. In every state with a revoke_and_ack at the head of a wire the receiver is also handed a lattice of ~280 algebraically related wrong revocations (n-s, s+-1, 2s, every single-bit flip, neighbouring heights, all-zero/ones x honest/negated/repeated next point) on all 7 channel types: each must be refused with no durable write, after which the honest one must still be accepted.",
    note="SHA-256 trusted; indices above the tier bound covered by bit patterns only (the property concedes this).", ref="§4 C06"),
 }
 
@@ -37,7 +37,7 @@ CHECKS.update({
 CHECKS.update({
  "C04": dict(cat="exploration", engine="chanmc+explore (in-package contractcourt)",
    technique="explicit-state exploration of the real LightningChannel pair; the harness plays the cheater by snapshotting each party's broadcastable txs, and the victim's NewBreachRetribution -> newRetributionInfo -> RetributionStore round trip -> createJusticeTx output is executed input by input in txscript.Engine against the real revoked and second-level outputs",
-   text="Bounded exhaustive enumeration (deviation-bounded and full interleavings, a reload at every point) of real two-peer histories on all 7 channel types; every revoked height is judged from persisted state: state hint, recorded indexes/amounts, ErrRevLogDataMissing exactly when specified, and script-interpreter validity of every justice input incl. second-level conversions.",
+   text="Bounded exhaustive enumeration (deviation-bounded and full interleavings, a reload at every point) of real two-peer histories on all 7 channel types; every revoked height is judged from persisted state: state hint, recorded indexes/amounts, ErrRevLogDataMissing exactly when specified, and script-interpreter validity of every justice input incl. second-level conversions. One retributionInfo object is additionally driven through every sequence of <=2 (thorough 3) spend events (second-level conversions, own justice variants confirming, single-input reports) with the justice transactions re-created after each event and every input executed against a UTXO model of the cheater's transactions.",
    note="One listed finding (lease channel, victim is opener: to_remote CLTV vs nLockTime 0). Justice fee/weight not judged; chain watcher breach dispatch driven through a real chainWatcher with stale handles (close-summary content of non-breach closes is C05/C12); <=3 HTLCs, one fee update, 2 reconnects.", ref="§4 C04"),
  "C05": dict(cat="exploration", engine="chanmc+explore",
    technique="explicit-state exploration of the real LightningChannel pair (chanmc); per distinct state the node's ForceClose / NewUnilateralCloseSummary resolutions are turned into the resolvers' sweep inputs and executed in the btcd script interpreter against true prevouts, with one-block-early negative controls and a claimable-value equation from the explorer's HTLC table",
@@ -60,14 +60,14 @@ CHECKS.update({
 CHECKS.update({
  "C19": dict(cat="exploration", engine="grid (in-harness, 16 worker subprocesses)",
    technique="exhaustive bounded enumeration of pathfinding queries on the real findPath+newRoute, each returned route judged by an independent math/big validator and per hop by the real htlcswitch CheckHtlcForward",
-   text="All <=4/5-channel multigraphs on 4 nodes x a policy palette, fee lattices on chain/parallel/self-payment shapes, hints, blinded tails and onion-size sweeps are enumerated; restriction and +-1 boundary probes are derived mechanically from every returned route, and every route is validated against the statement in unbounded integers.",
+   text="All <=4/5-channel multigraphs on 4 nodes x a policy palette, fee lattices on chain/parallel/self-payment shapes, hints, blinded tails and onion-size sweeps are enumerated; restriction and +-1 boundary probes are derived mechanically from every returned route, and every route is validated against the statement in unbounded integers. A foreign-source space (source != own node x disabled first hops of the source x bandwidth hints) and the real ChannelRouter.FindRoute entry with its own bandwidth manager (link offline / ineligible / full / bandwidth +-1 on every own hop) are included.",
    note="Soundness only (optimality not judged); mission control replaced by a constant probability; local-channel usability judged by the bandwidth hint as lnd documents; one genuine finding repaired in /repo (fix: bb5e6cd, blinded path htlc_maximum).", ref="§4 C19"),
 })
 
 CHECKS.update({
  "C14": dict(cat="model_checking", engine="explore+synctest",
    technique="level-synchronous BFS (through the explore engine) over all chain, client, rescan and restart operation sequences of a 7-block, 1-tx, 2-spender universe on the real TxNotifier and HeightHintCache, each world in a synctest bubble, judged after every call by a reference chain, per-client views and the read-back hint cache",
-   text="Every operation sequence up to depth 6-8 (thorough 7-13, two notifier restarts) incl. reorgs within the safety limit, registrations with any true hint, cancellations, rescan completions racing with blocks (hint-read window and ConnectTip/NotifyHeight split as explicit interleavings) is executed on the real notifier; canonical-state dedup; a blocked send with the lock held is detected by bubble quiescence.",
+   text="Every operation sequence up to depth 6-8 (thorough 7-13, two notifier restarts) incl. reorgs within the safety limit, registrations with any true hint, cancellations, rescan completions racing with blocks (hint-read window and ConnectTip/NotifyHeight split as explicit interleavings) is executed on the real notifier; canonical-state dedup; a blocked send with the lock held is detected by bubble quiescence. Further spaces call ProcessRelevantSpendTx (announced spends, details above the tip), keep clients from reading between events (an unread notification is judged by peek at every state and a reorg notice must be waiting), and repeat every rescan with the real MatchesTx functions.",
    note="Reorgs while the notifier is down are excluded (lnd's documented limitation); stale-scan candidates are recorded, not reported; two genuine findings repaired in /repo (fix: 8ff4b07, 8d4968e); thorough adds a free-running -race pass.", ref="§4 C14"),
 })
 
@@ -88,7 +88,7 @@ CHECKS.update({
 CHECKS.update({
  "C12": dict(cat="exploration", engine="grid (in-package contractcourt)",
    technique="exhaustive enumeration of HTLC-set cells x configs x trigger/confirmation scenarios on the real, un-started ChannelArbitrator driven synchronously through advanceState with harness-owned dependencies; a spec function written from the statement judges force-close heights, resolvers, upstream fails and final outcomes; membership patterns cross-checked against chanmc reachable states",
-   text="All cells of direction x per-commitment dust x preimage knowledge x membership pattern x expiry class x forwarded/own for 1-3 (thorough 4) HTLCs, all broadcast-delta settings, grace period, both feeds, every go-to-chain step and confirmed commitment are executed on the real state machine (0.78 M executions quick, 11 M thorough).",
+   text="All cells of direction x per-commitment dust x preimage knowledge x membership pattern x expiry class x forwarded/own for 1-3 (thorough 4) HTLCs, all broadcast-delta settings, grace period, both feeds, every go-to-chain step and confirmed commitment are executed on the real state machine (0.78 M executions quick, 11 M thorough). The confirmed-commitment pipeline also runs through the real started chain watcher (closeObserver/processDetectedSpend): confirmation depth {1,3} x confirming commitment x rival spend {none, other commitment, same tx, RBF coop close} x {replaced, re-orged} x detecting call site, and cooperative closes with both sequence values must be classified as cooperative.",
    note="Three known findings K1-K3 (dust fail-back before the remote commitment confirms; dust / dangling-dust never failed back after our own broadcast; Go-map-order dependent dangling classification); restart and persistence are C13; breach/coop confirmations judged for panic freedom only.", ref="§4 C12"),
  "C13": dict(cat="fault_enumeration", engine="crashdb+synctest (in-package contractcourt)",
    technique="exhaustive stop-after-every-commit (singles, pairs, triples) of the real started ChannelArbitrator and resolvers on newBoltArbitratorLog over a crashdb-wrapped bbolt file inside a testing/synctest bubble in re-exec'd worker processes, with a harness-owned chain, notifier, sweeper and channel.db model and restart-like-ChainArbitrator logic; differential against the uninterrupted run",
@@ -99,14 +99,14 @@ CHECKS.update({
 CHECKS.update({
  "C15": dict(cat="model_checking", engine="seqmc+vsched/vsync",
    technique="exhaustive breadth-first enumeration of invoice event sequences on the real InvoiceRegistry over the KV and the SQL (sqlite) store in lock-step, plus all preemption-bounded interleavings of two links and the set-timeout transaction under a cooperative scheduler (sync-import shim), each step judged by a reference oracle written from the property statement",
-   text="HTLCs over an amount x declared-total x address x expiry lattice, exact replays, cancel, hold-settle with right/wrong preimage, set timeout and height events are enumerated to depth 4 (thorough 4-6) per invoice kind (regular, hold, zero-amount, AMP, keysend, blinded-path, spontaneous AMP); every settle order is checked against the settlement conjunction, states must be monotone, AmtPaid exact, replays verdict-stable, KV == SQL.",
+   text="HTLCs over an amount x declared-total x address x expiry lattice, exact replays, cancel, hold-settle with right/wrong preimage, set timeout and height events are enumerated to depth 4 (thorough 4-6) per invoice kind (regular, hold, zero-amount, AMP, keysend, blinded-path, spontaneous AMP); every settle order is checked against the settlement conjunction, states must be monotone, AmtPaid exact, replays verdict-stable, KV == SQL. The invoice expiry watcher runs as a second actor (time expiry, block expiry of accepted hold invoices, re-population after restart, non-forced cancel path).",
    note="No synctest bubble: a virtual clock implementation drives the registry deterministically; invoice expiry watcher and HTLC interceptor outside the universe; sqlite only; two genuine findings repaired in /repo (fix: 0e60830, a97d82f).", ref="§4 C15"),
 })
 
 CHECKS.update({
  "C20": dict(cat="model_checking", engine="seqmc+synctest (in-package discovery)",
    technique="explicit-state BFS over gossip message alphabets (seqmc) against a reference acceptance model written from the property statement and BOLT 7, plus exhaustive single-byte and single-field corruption enumeration, on the real started AuthenticatedGossiper + graph.Builder + KV/SQL graph store inside testing/synctest bubbles (virtual time)",
-   text="All message sequences up to depth 5 (quick) / 6 (thorough) over valid messages, corrupted twins, future-block channels and bursts, with canonical-state de-duplication, and every byte x {0x01,0x80,0xff} plus 111 single-field semantic corruptions in five graph contexts are delivered through ProcessRemoteAnnouncement; the graph may change only as the model predicts and every broadcast must be byte-equal to an accepted message.",
+   text="All message sequences up to depth 5 (quick) / 6 (thorough) over valid messages, corrupted twins, future-block channels and bursts, with canonical-state de-duplication, and every byte x {0x01,0x80,0xff} plus 111 single-field semantic corruptions in five graph contexts are delivered through ProcessRemoteAnnouncement; the graph may change only as the model predicts and every broadcast must be byte-equal to an accepted message. Every update, announcement and node-announcement corruption is also delivered to channels sitting in the zombie index, for every stored-key cell (both keys, one key, policy missing), both pruning modes and both stores.",
    note="Gossip v1 only; fixed key material; zombie marking after a failed funding check is not counted as a graph change; the completeness half (valid message applied unless a documented defence drops it) is stronger than the property and reported under its own signature; store batch interval 0 instead of 500 ms (a mutex held across the virtual timer wait freezes a bubble).", ref="§4 C20"),
 })
 
